@@ -187,7 +187,15 @@ def forbidden_scan(pid=None):
     closure is unknown); returns list of 'file:line: text'"""
     hits = []
     pats = [re.compile(p) for p in FORBIDDEN]
-    files = coq_closure(pid) if pid else None
+    files = None
+    if pid:
+        for _ in range(8):           # the dependency file is rewritten by concurrent `make` runs: retry briefly
+            files = coq_closure(pid)
+            if files is not None:
+                break
+            time.sleep(1.0)
+        if files is None:            # still unknown: the package's own directory and the shared libraries
+            files = sorted(list((COQ / pid).glob("*.v")) + list((COQ / "Lib").glob("*.v")) + list((COQ / "Gen").glob("*.v")))
     if files is None:
         files = sorted(COQ.rglob("*.v"))
     for p in files:
